@@ -11,6 +11,7 @@ import (
 	"path/filepath"
 	"sort"
 	"strings"
+	"sync"
 
 	lib "github.com/whawty/auth/store"
 )
@@ -25,6 +26,9 @@ type vAgent struct {
 	sessions *webSessionFactory
 	ref      *lib.Dir // the same directory through the library, as reference
 	pws      map[string]bool
+	pwOf     map[string]string // harness bookkeeping: current password per user
+	pwHist   map[string][]string
+	pwMu     sync.Mutex
 }
 
 const vCheapCfg = `basedir: %q
